@@ -563,12 +563,12 @@ def run(chk):
 META = {
     "category": "other",
     "engine": "TNA + interval analysis",
-    "technique": "symbolic interpretation of contraction paths / tensordot chains to network signatures vs the canonical transfer-matrix network; interval abstract interpretation of the cache-length loop",
+    "technique": "abstract interpretation of the reduced-density-matrix, batched-expectation and transfer-matrix code on abstract tensors (closed network compared, orientation included); symbolic interpretation of contraction paths to network signatures; guard formulas (DNF) on the way to real casts",
     "text": "Decides that every kernel from which expectation values are assembled contracts the canonical <bra|O|ket> network in every "
             "configuration (rank-3/4 sites, L/R, one or several operators), that the batched path's two halves agree on leg order, and that "
             "cached partial environments cannot overlap. Numeric equality with the dense definitions, RDM and entropy formulas are not decided."
             ' One- and two-site RDM chains are decided by conjugation-typed axis tracking; the per-model operator cache keys, the electronic RDM assembly order and the entropy formula by abstract runs.',
     "note": "Kernel roles by parameter position; the length analysis understands append/pop and comparisons between len(list) and the limit, "
             "treats every other condition as unknown (both branches).",
-    "design_ref": "DESIGN.md 3.2, 4 (C07)",
+    "design_ref": "DESIGN.md 3.2, 4 (C07); as built: 9.1, 9.3, 9.8",
 }
